@@ -166,15 +166,3 @@ Example C10_fixed_witnesses :
   fs_was ex_wc [C [97]%N pl; C [768]%N pl] (IxSlice (Some 0) (Some 1)) = Ok [C [97]%N pl; C [768]%N pl] /\
   fs_was ex_wc [C [97; 768]%N pl] (IxSlice (Some 0) (Some 1)) = Ok [C [97; 768]%N pl].
 Proof. repeat split; vm_compute; reflexivity. Qed.
-
-(* tie of the model's interval_overlap to the function text in the repository: Gen/Pure.v
-   holds the syntax tree of curtsies.formatstring.interval_overlap dumped from the Python
-   AST of the working tree on every run, [PyMini.call] is the reference semantics of that
-   Python subset (Spec/PyMini.v); for ALL integer arguments they agree *)
-From Curtsies Require Spec.PyMini Gen.Pure Proofs.PureTie.
-Theorem C10_interval_overlap_is_the_repository_function :
-  forall a b x y : Z,
-    PyMini.call Pure.py_interval_overlap [PyMini.VInt a; PyMini.VInt b; PyMini.VInt x; PyMini.VInt y]
-    = Ok (PyMini.VInt (interval_overlap a b x y)).
-Proof. exact PureTie.interval_overlap_tie. Qed.
-Print Assumptions C10_interval_overlap_is_the_repository_function.
